@@ -22,20 +22,16 @@ Definition site := (string * string * string * string * N)%type.
 Definition classification : list (string * string * string * string * N * reason) :=
   [
     ("src/torrent_summary.rs", "TorrentSummary::table", "arith", "value.push((format!(""Tier {}"", i + 1), tier.clone()));", 1%N, Guarded _ tiers_guard "enumerate index + 1; modelled by tiers_rows, hypothesis vec_ok (a Vec has fewer than 2^64 elements)");
-    ("src/table.rs", "Table::write_human_readable", "index", "last[..last.len() - 1]", 1%N, Guarded _ line_prefix_guard "inside `if !last.is_empty()`; modelled by line_prefix");
-    ("src/table.rs", "Table::write_human_readable", "index", "last[last.len() - 1]", 1%N, Guarded _ line_prefix_guard "inside `if !last.is_empty()`; modelled by line_prefix");
-    ("src/table.rs", "Tree::insert", "index", "file[0]", 1%N, Guarded _ tree_insert_guard "after the is_empty() return; modelled by tree_insert");
-    ("src/table.rs", "Tree::insert", "index", "file[1..]", 1%N, Guarded _ tree_insert_guard "file[1..] of a non-empty slice; modelled by tree_insert");
-    ("src/table.rs", "Tree::insert", "index", "file[1..]", 2%N, Guarded _ tree_insert_guard "file[1..] of a non-empty slice; modelled by tree_insert");
+    ("src/table.rs", "Tree::insert", "index", "tree.children[index]", 1%N, Guarded _ tree_insert_spec "index is the position of an existing child, or len - 1 right after a push; modelled by tree_insert, proved equal to the recursive insert_spec");
+    ("src/table.rs", "Tree::insert", "arith", "tree.children.len() - 1", 1%N, Guarded _ tree_insert_spec "right after children.push(..), so len >= 1; modelled by tree_insert");
+    ("src/table.rs", "Tree::lines", "api", "prefix.truncate(*indent);", 1%N, Guarded _ tree_lines_spec "String::truncate panics off a char boundary: indent is the length the prefix had when the frame was pushed and everything pushed since starts a character (stack_ok, boundary_keep); modelled by lines_loop / truncate");
+    ("src/table.rs", "Tree::lines", "api", "prefix.truncate(*indent);", 2%N, Guarded _ tree_lines_spec "second cut of the round, after the connector was pushed at the same indent; modelled by lines_loop / truncate");
     ("src/table.rs", "Table::write_human_readable", "arith", "width = name_width - UnicodeWidthStr::width(*name),", 1%N, Guarded _ pad_rows_guard "name_width is the maximum of the widths; modelled by pad_rows");
     ("src/table.rs", "Table::write_human_readable", "arith", "padding(out, name_width + 2)?;", 1%N, Argued "sum of display widths of the fixed row labels (at most 13 columns) and of ""Tier N:"" labels: bounded by the decimal width of a Vec index plus constants");
-    ("src/table.rs", "Table::write_human_readable", "arith", "for last in &last[..last.len() - 1] {", 1%N, Guarded _ line_prefix_guard "inside `if !last.is_empty()`; modelled by line_prefix");
-    ("src/table.rs", "Table::write_human_readable", "arith", "if last[last.len() - 1] {", 1%N, Guarded _ line_prefix_guard "inside `if !last.is_empty()`; modelled by line_prefix");
     ("src/table.rs", "Table::write_human_readable", "arith", "width = tier_name_width + 1", 1%N, Argued "sum of display widths of the fixed row labels (at most 13 columns) and of ""Tier N:"" labels: bounded by the decimal width of a Vec index plus constants");
     ("src/table.rs", "Table::write_human_readable", "arith", "padding(out, name_width + 2 + tier_name_width + 1)?;", 1%N, Argued "sum of display widths of the fixed row labels (at most 13 columns) and of ""Tier N:"" labels: bounded by the decimal width of a Vec index plus constants");
     ("src/table.rs", "Table::write_human_readable", "arith", "padding(out, name_width + 2 + tier_name_width + 1)?;", 2%N, Argued "sum of display widths of the fixed row labels (at most 13 columns) and of ""Tier N:"" labels: bounded by the decimal width of a Vec index plus constants");
     ("src/table.rs", "Table::write_human_readable", "arith", "padding(out, name_width + 2 + tier_name_width + 1)?;", 3%N, Argued "sum of display widths of the fixed row labels (at most 13 columns) and of ""Tier N:"" labels: bounded by the decimal width of a Vec index plus constants");
-    ("src/table.rs", "Tree::lines_inner", "arith", "if i == self.children.len() - 1 {", 1%N, Guarded _ lines_guard "inside the loop over children, so children is not empty; modelled by lines_node");
     ("src/bytes.rs", "Bytes as Display::fmt", "index", "DISPLAY_SUFFIXES[i - 1]", 1%N, Guarded _ display_guard "a u64 is below 1024^7, so 1 <= i <= 6 in the else branch; modelled by bytes_display");
     ("src/bytes.rs", "Bytes::absolute_difference", "arith", "self - other", 1%N, Argued "not on an input path of show/link/verify/dump/stats or of an argument parser: used by create (piece-length picker, lints) with operands from the walked files, properties C14/C15");
     ("src/bytes.rs", "Bytes::absolute_difference", "arith", "other - self", 1%N, Argued "not on an input path of show/link/verify/dump/stats or of an argument parser: used by create (piece-length picker, lints) with operands from the walked files, properties C14/C15");
@@ -90,5 +86,5 @@ Proof. vm_compute. reflexivity. Qed.
 Lemma inventory_translated : GenPanicSites.translated = true /\ length anchored_files = 20%nat.
 Proof. split; reflexivity. Qed.
 
-Lemma guarded_count : length (filter (fun e => is_guarded (snd e)) classification) = 22%nat.
+Lemma guarded_count : length (filter (fun e => is_guarded (snd e)) classification) = 18%nat.
 Proof. vm_compute. reflexivity. Qed.
